@@ -15,4 +15,9 @@ C5      == {"c1", "c2", "c3", "c4", "c5"}
 Kind5   == [c \in C5 |-> IF c = "c5" THEN "remove" ELSE "deploy"]
 Name5   == [c \in C5 |-> CASE c = "c1" -> "A" [] c = "c2" -> "B" [] c = "c3" -> "A" [] c = "c4" -> "C" [] c = "c5" -> "B"]
 Bind5   == [c \in C5 |-> CASE c = "c1" -> {"p1"} [] c = "c2" -> {"p1", "p2"} [] c = "c3" -> {"p2", "p3"} [] c = "c4" -> {"p3"} [] c = "c5" -> {}]
+\* a rollout deploy of A waits while A is removed and its pair is given to B (seeded change C05-3)
+C6      == {"c1", "c2", "c3", "c4"}
+Kind6   == [c \in C6 |-> CASE c = "c1" -> "deploy" [] c = "c2" -> "rdeploy" [] c = "c3" -> "remove" [] c = "c4" -> "deploy"]
+Name6   == [c \in C6 |-> IF c = "c4" THEN "B" ELSE "A"]
+Bind6   == [c \in C6 |-> IF c \in {"c1", "c4"} THEN {"p1"} ELSE {}]
 =============================================================================
